@@ -1,19 +1,618 @@
 package symgo
 
-// fe.go: the algebraic slot model (field elements as sparse polynomials over atoms).  Filled in below.
+// fe.go: the algebraic slot model.  A uint64 cell may hold a field element: a value known modulo a concrete
+// prime q as a sparse polynomial over named atoms (ciphertext, key, error, ... coefficients) together with a
+// machine-value interval [lo,hi].  +,-,* on such cells are field operations with overflow/underflow obligations
+// on the interval; the scalar reduction kernels act through their contracts (proved at word level under C01).
 
 import (
+	"fmt"
 	"go/token"
 	"go/types"
+	"math/big"
+	"math/bits"
+	"sort"
+	"strings"
+
+	"golang.org/x/tools/go/ssa"
 )
 
-type FE struct{}
-type feState struct{}
-type streamState struct{}
+// atom classes
+const (
+	ClsUniform  = 0 // uniformly random mask / CRS / ciphertext coefficient
+	ClsSecret   = 1
+	ClsError    = 2
+	ClsMessage  = 3
+	ClsDigit    = 4
+	ClsRounding = 5
+	ClsJunk     = 6
+)
+
+var clsNames = []string{"uniform", "secret", "error", "message", "digit", "rounding", "junk"}
+
+type atomInfo struct {
+	id    int
+	name  string
+	class int
+	q     uint64
+}
+
+// mono is a monomial: sorted atom ids (with repetition for powers), encoded as a string key.
+type FEPoly struct {
+	q     uint64
+	terms map[string]uint64 // monomial key -> coefficient in [1,q)
+}
+
+type FE struct {
+	P      *FEPoly
+	Lo, Hi *big.Int
+}
+
+type feState struct {
+	atoms    []*atomInfo
+	byName   map[string]*atomInfo
+	rinv     map[uint64]uint64 // 2^-64 mod q
+	rr       map[uint64]uint64 // 2^64 mod q
+	nttMat   map[string][][]uint64
+	streams  map[string]int
+	monoVars map[string]*Term
+}
+
+type streamState struct{ pos int }
+
+func (x *Exec) feS() *feState {
+	if x.fe == nil {
+		x.fe = &feState{byName: map[string]*atomInfo{}, rinv: map[uint64]uint64{}, rr: map[uint64]uint64{}, nttMat: map[string][][]uint64{}, streams: map[string]int{}, monoVars: map[string]*Term{}}
+	}
+	return x.fe
+}
+
+func mulmod(a, b, q uint64) uint64 {
+	hi, lo := bits.Mul64(a, b)
+	_, r := bits.Div64(hi%q, lo, q)
+	return r
+}
+func addmod(a, b, q uint64) uint64 {
+	s := a + b
+	if s >= q || s < a {
+		s -= q
+	}
+	return s
+}
+func powmod(a, e, q uint64) uint64 {
+	r := uint64(1)
+	a %= q
+	for ; e > 0; e >>= 1 {
+		if e&1 == 1 {
+			r = mulmod(r, a, q)
+		}
+		a = mulmod(a, a, q)
+	}
+	return r
+}
+func invmod(a, q uint64) uint64 { return powmod(a, q-2, q) }
+
+func (s *feState) radix(q uint64) (r, rinv uint64) {
+	if v, ok := s.rr[q]; ok {
+		return v, s.rinv[q]
+	}
+	r = new(big.Int).Mod(pow2(64), new(big.Int).SetUint64(q)).Uint64()
+	s.rr[q] = r
+	s.rinv[q] = invmod(r, q)
+	return r, s.rinv[q]
+}
+
+// ---- polynomials
+
+func monoKey(ids []int) string {
+	sort.Ints(ids)
+	var sb strings.Builder
+	for i, id := range ids {
+		if i > 0 {
+			sb.WriteByte(',')
+		}
+		fmt.Fprintf(&sb, "%d", id)
+	}
+	return sb.String()
+}
+
+func monoIDs(k string) []int {
+	if k == "" {
+		return nil
+	}
+	parts := strings.Split(k, ",")
+	ids := make([]int, len(parts))
+	for i, p := range parts {
+		fmt.Sscanf(p, "%d", &ids[i])
+	}
+	return ids
+}
+
+func monoMul(a, b string) string {
+	if a == "" {
+		return b
+	}
+	if b == "" {
+		return a
+	}
+	return monoKey(append(monoIDs(a), monoIDs(b)...))
+}
+
+func newFEPoly(q uint64) *FEPoly { return &FEPoly{q: q, terms: map[string]uint64{}} }
+
+func (p *FEPoly) addTerm(k string, c uint64) {
+	c %= p.q
+	if c == 0 {
+		return
+	}
+	v := addmod(p.terms[k], c, p.q)
+	if v == 0 {
+		delete(p.terms, k)
+	} else {
+		p.terms[k] = v
+	}
+}
+
+func feConst(q, c uint64) *FEPoly {
+	p := newFEPoly(q)
+	p.addTerm("", c%q)
+	return p
+}
+
+func (p *FEPoly) add(o *FEPoly) *FEPoly {
+	r := newFEPoly(p.q)
+	for k, c := range p.terms {
+		r.terms[k] = c
+	}
+	for k, c := range o.terms {
+		r.addTerm(k, c)
+	}
+	return r
+}
+
+func (p *FEPoly) scale(c uint64) *FEPoly {
+	r := newFEPoly(p.q)
+	c %= p.q
+	if c == 0 {
+		return r
+	}
+	for k, v := range p.terms {
+		r.terms[k] = mulmod(v, c, p.q)
+	}
+	return r
+}
+
+func (p *FEPoly) neg() *FEPoly { return p.scale(p.q - 1) }
+
+func (p *FEPoly) mul(o *FEPoly) *FEPoly {
+	r := newFEPoly(p.q)
+	for k1, c1 := range p.terms {
+		for k2, c2 := range o.terms {
+			r.addTerm(monoMul(k1, k2), mulmod(c1, c2, p.q))
+		}
+	}
+	return r
+}
+
+func (p *FEPoly) isZero() bool { return len(p.terms) == 0 }
+
+func (p *FEPoly) equal(o *FEPoly) bool {
+	if len(p.terms) != len(o.terms) {
+		return false
+	}
+	for k, c := range p.terms {
+		if o.terms[k] != c {
+			return false
+		}
+	}
+	return true
+}
+
+func (p *FEPoly) keys() []string {
+	ks := make([]string, 0, len(p.terms))
+	for k := range p.terms {
+		ks = append(ks, k)
+	}
+	sort.Strings(ks)
+	return ks
+}
+
+func (x *Exec) polyString(p *FEPoly, max int) string {
+	s := x.feS()
+	var parts []string
+	for i, k := range p.keys() {
+		if i >= max {
+			parts = append(parts, fmt.Sprintf("… (%d terms)", len(p.terms)))
+			break
+		}
+		var names []string
+		for _, id := range monoIDs(k) {
+			names = append(names, s.atoms[id].name)
+		}
+		m := strings.Join(names, "·")
+		if m == "" {
+			m = "1"
+		}
+		parts = append(parts, fmt.Sprintf("%d·%s", p.terms[k], m))
+	}
+	if len(parts) == 0 {
+		return "0"
+	}
+	return strings.Join(parts, " + ")
+}
+
+// dropClasses removes every monomial that contains an atom of one of the classes (sets those atoms to 0).
+func (x *Exec) dropClasses(p *FEPoly, classes ...int) *FEPoly {
+	s := x.feS()
+	drop := map[int]bool{}
+	for _, c := range classes {
+		drop[c] = true
+	}
+	r := newFEPoly(p.q)
+	for k, c := range p.terms {
+		keep := true
+		for _, id := range monoIDs(k) {
+			if drop[s.atoms[id].class] {
+				keep = false
+				break
+			}
+		}
+		if keep {
+			r.terms[k] = c
+		}
+	}
+	return r
+}
+
+// ---- field elements
+
+func (x *Exec) newAtom(name string, class int, q uint64) *FE {
+	s := x.feS()
+	full := fmt.Sprintf("%s@%d", name, q)
+	a, ok := s.byName[full]
+	if !ok {
+		a = &atomInfo{id: len(s.atoms), name: name, class: class, q: q}
+		s.atoms = append(s.atoms, a)
+		s.byName[full] = a
+	}
+	p := newFEPoly(q)
+	p.terms[monoKey([]int{a.id})] = 1
+	return &FE{P: p, Lo: bigZero, Hi: new(big.Int).SetUint64(q - 1)}
+}
+
+func (x *Exec) feFromConst(q uint64, c *Term) *FE {
+	v := c.ConstBig()
+	m := new(big.Int).Mod(v, new(big.Int).SetUint64(q))
+	return &FE{P: feConst(q, m.Uint64()), Lo: v, Hi: v}
+}
+
+var two64big = pow2(64)
+
+func (x *Exec) feRangeCheck(lo, hi *big.Int, what string) {
+	if hi.Cmp(two64big) >= 0 {
+		x.addObligation(&Obligation{ID: "lazy-range-no-overflow", Kind: "range", Cond: x.ts.False,
+			Where: fmt.Sprintf("%s: tracked upper bound %s reaches 2^64", what, hi)})
+	}
+	if lo.Sign() < 0 {
+		x.addObligation(&Obligation{ID: "lazy-range-no-underflow", Kind: "range", Cond: x.ts.False,
+			Where: fmt.Sprintf("%s: tracked lower bound %s is negative (subtraction may wrap)", what, lo)})
+	}
+}
 
 func (x *Exec) feBinop(op token.Token, a, b Value, t types.Type) Value {
-	panic(x.errf("field-element arithmetic not available"))
+	fa, oka := a.(*FE)
+	fb, okb := b.(*FE)
+	var q uint64
+	if oka {
+		q = fa.P.q
+	} else {
+		q = fb.P.q
+	}
+	conv := func(v Value) *FE {
+		tm, ok := v.(*Term)
+		if !ok || !tm.IsConst() {
+			panic(x.errf("field element mixed with a symbolic machine word (%v)", v))
+		}
+		return x.feFromConst(q, tm)
+	}
+	if !oka {
+		fa = conv(a)
+	}
+	if !okb {
+		if (op == token.SHL || op == token.SHR) && false {
+		}
+		fb = conv(b)
+	}
+	if fa.P.q != fb.P.q {
+		panic(&GoPanic{Msg: fmt.Sprintf("VERIF-MODULUS: arithmetic between values of different moduli %d and %d (limb mix-up)", fa.P.q, fb.P.q), Stack: x.stackTrace()})
+	}
+	switch op {
+	case token.ADD:
+		lo, hi := new(big.Int).Add(fa.Lo, fb.Lo), new(big.Int).Add(fa.Hi, fb.Hi)
+		x.feRangeCheck(lo, hi, "addition")
+		return &FE{P: fa.P.add(fb.P), Lo: lo, Hi: hi}
+	case token.SUB:
+		lo, hi := new(big.Int).Sub(fa.Lo, fb.Hi), new(big.Int).Sub(fa.Hi, fb.Lo)
+		x.feRangeCheck(lo, hi, "subtraction")
+		if lo.Sign() < 0 {
+			lo = bigZero
+		}
+		return &FE{P: fa.P.add(fb.P.neg()), Lo: lo, Hi: hi}
+	case token.MUL:
+		lo, hi := new(big.Int).Mul(fa.Lo, fb.Lo), new(big.Int).Mul(fa.Hi, fb.Hi)
+		x.feRangeCheck(lo, hi, "multiplication")
+		return &FE{P: fa.P.mul(fb.P), Lo: lo, Hi: hi}
+	}
+	panic(x.errf("operation %s on a field element is outside the algebraic model", op))
 }
-func (x *Exec) feNeg(a *FE) Value        { panic(x.errf("field-element arithmetic not available")) }
-func (x *Exec) feEqual(a, b Value) *Term { panic(x.errf("field-element comparison not available")) }
-func registerFEPrelude()                 {}
+
+func (x *Exec) feNeg(a *FE) Value {
+	panic(x.errf("unary minus on a field element (two's complement negation is outside the algebraic model)"))
+}
+
+func (x *Exec) feEqual(a, b Value) *Term {
+	panic(x.errf("comparison of field elements in the code under test is outside the algebraic model"))
+}
+
+// feArg converts a kernel argument into a field element of modulus q.
+func (x *Exec) feArg(v Value, q uint64) *FE {
+	switch t := v.(type) {
+	case *FE:
+		if t.P.q != q {
+			panic(&GoPanic{Msg: fmt.Sprintf("VERIF-MODULUS: value of modulus %d passed to a reduction modulo %d (limb mix-up)", t.P.q, q), Stack: x.stackTrace()})
+		}
+		return t
+	case *Term:
+		if t.IsConst() {
+			return x.feFromConst(q, t)
+		}
+	}
+	panic(x.errf("field-element kernel on %T", v))
+}
+
+func anyFE(args []Value) bool {
+	for _, a := range args {
+		if _, ok := a.(*FE); ok {
+			return true
+		}
+	}
+	return false
+}
+
+func (x *Exec) feReduced(p *FEPoly, q uint64, lazy uint64) *FE {
+	return &FE{P: p, Lo: bigZero, Hi: new(big.Int).SetUint64(lazy*q - 1)}
+}
+
+// feKernel implements the contracts of ring/modular_reduction.go on field elements.
+// Returns ok=false when the call has no field-element argument (then the real code is interpreted).
+func (x *Exec) feKernel(name string, args []Value) (Value, bool) {
+	if !anyFE(args) {
+		return nil, false
+	}
+	s := x.feS()
+	qOf := func(i int) uint64 {
+		t, ok := args[i].(*Term)
+		if !ok || !t.IsConst() {
+			panic(x.errf("%s: symbolic modulus in the algebraic model", name))
+		}
+		return t.C
+	}
+	prodCheck := func(a, b *FE, q uint64) {
+		// contract precondition (C01-1): x*y < q*2^64
+		lim := new(big.Int).Mul(new(big.Int).SetUint64(q), two64big)
+		if new(big.Int).Mul(a.Hi, b.Hi).Cmp(lim) >= 0 {
+			x.addObligation(&Obligation{ID: "montgomery-input-range", Kind: "range", Cond: x.ts.False,
+				Where: fmt.Sprintf("%s: product of tracked bounds %s * %s reaches q*2^64", name, a.Hi, b.Hi)})
+		}
+	}
+	switch name {
+	case "MRed", "MRedLazy":
+		q := qOf(2)
+		a, b := x.feArg(args[0], q), x.feArg(args[1], q)
+		prodCheck(a, b, q)
+		_, rinv := s.radix(q)
+		lazy := uint64(1)
+		if name == "MRedLazy" {
+			lazy = 2
+		}
+		return x.feReduced(a.P.mul(b.P).scale(rinv), q, lazy), true
+	case "BRed", "BRedLazy":
+		q := qOf(2)
+		a, b := x.feArg(args[0], q), x.feArg(args[1], q)
+		qb := new(big.Int).SetUint64(q)
+		if a.Hi.Cmp(qb) >= 0 && b.Hi.Cmp(qb) >= 0 {
+			x.addObligation(&Obligation{ID: "barrett-input-range", Kind: "range", Cond: x.ts.False,
+				Where: fmt.Sprintf("%s: neither operand is known to be below q (bounds %s, %s)", name, a.Hi, b.Hi)})
+		}
+		lazy := uint64(1)
+		if name == "BRedLazy" {
+			lazy = 2
+		}
+		return x.feReduced(a.P.mul(b.P), q, lazy), true
+	case "BRedAdd", "BRedAddLazy":
+		q := qOf(1)
+		a := x.feArg(args[0], q)
+		lazy := uint64(1)
+		if name == "BRedAddLazy" {
+			lazy = 2
+		}
+		return x.feReduced(a.P, q, lazy), true
+	case "CRed":
+		// CRed(a) = a-q if a >= q else a (C01: VerifH_C01_CRed, all a): congruent, below q when a < 2q,
+		// otherwise merely one q smaller (callers that feed lazy values rely on a later full reduction)
+		q := qOf(1)
+		a := x.feArg(args[0], q)
+		hi := new(big.Int).SetUint64(q - 1)
+		if d := new(big.Int).Sub(a.Hi, new(big.Int).SetUint64(q)); d.Cmp(hi) > 0 {
+			hi = d
+		}
+		return &FE{P: a.P, Lo: bigZero, Hi: hi}, true
+	case "MForm", "MFormLazy":
+		q := qOf(1)
+		a := x.feArg(args[0], q)
+		r, _ := s.radix(q)
+		lazy := uint64(1)
+		if name == "MFormLazy" {
+			lazy = 2
+		}
+		return x.feReduced(a.P.scale(r), q, lazy), true
+	case "IMForm", "IMFormLazy":
+		q := qOf(1)
+		a := x.feArg(args[0], q)
+		_, rinv := s.radix(q)
+		lazy := uint64(1)
+		if name == "IMFormLazy" {
+			lazy = 2
+		}
+		return x.feReduced(a.P.scale(rinv), q, lazy), true
+	}
+	return nil, false
+}
+
+// ---------------------------------------------------------------- prelude functions of the algebraic model
+
+func (x *Exec) feOf(v Value, q uint64) *FE {
+	switch t := v.(type) {
+	case *FE:
+		return t
+	case *Term:
+		if t.IsConst() {
+			return x.feFromConst(q, t)
+		}
+	}
+	panic(x.errf("expected an algebraic value, got %s", describe(v)))
+}
+
+func (x *Exec) sliceFEs(v Value, q uint64) []*FE {
+	s := v.(Slice)
+	out := make([]*FE, s.Len)
+	for i := range out {
+		out[i] = x.feOf(s.Obj.Cells[s.Off+i], q)
+	}
+	return out
+}
+
+// feObligation states "a ≡ b (mod q) as polynomials over the atoms" as a solver query: every distinct monomial
+// becomes a free integer variable, both sides become linear forms over those variables, and the identity holds for
+// all atom values iff  (Σ a_m·M_m − Σ b_m·M_m) mod q ≠ 0  is unsatisfiable.  (Monomials as free variables
+// over-approximate their values, so unsat is sound; a sat answer names the monomial that differs.)
+func (x *Exec) feObligation(a, b *FEPoly, id, where string) {
+	ts := x.ts
+	lin := func(p *FEPoly) *Term {
+		sum := ts.IntI(0)
+		for _, k := range p.keys() {
+			st := x.feS()
+			m, ok := st.monoVars[k]
+			if !ok {
+				m = ts.Var("mono["+k+"]", SInt, 0)
+				st.monoVars[k] = m
+			}
+			sum = ts.IBin(OIAdd, sum, ts.IBin(OIMul, ts.IntU(p.terms[k]), m))
+		}
+		return sum
+	}
+	// monomial variables must be shared between the two sides: intern by name
+	diff := a.add(b.neg())
+	note := where
+	if !diff.isZero() {
+		note += " residual: " + x.polyString(diff, 6)
+	}
+	if len(a.terms)+len(b.terms) > 600 {
+		// very large sides: send only the residual (still a solver query over its monomials)
+		cond := ts.Cmp(OEq, ts.IBin(OIMod, lin(diff), ts.IntU(a.q)), ts.IntI(0))
+		x.addObligation(&Obligation{ID: id, Kind: "assert", Cond: cond, Where: note})
+		return
+	}
+	cond := ts.RawEq(ts.IBin(OIMod, lin(a), ts.IntU(a.q)), ts.IBin(OIMod, lin(b), ts.IntU(a.q)))
+	x.addObligation(&Obligation{ID: id, Kind: "assert", Cond: cond, Where: note})
+}
+
+func registerFEPrelude() {
+	P := preludeFns
+	// vAtoms(name, class, q, n) []uint64
+	P["vAtoms"] = func(x *Exec, fn *ssa.Function, a []Value) Value {
+		name := a[0].(string)
+		class := x.constInt(a[1], "class")
+		q := x.term(a[2]).C
+		n := x.constInt(a[3], "n")
+		s := x.makeSlice(types.Typ[types.Uint64], n, n, name)
+		for i := 0; i < n; i++ {
+			s.Obj.Cells[i] = x.newAtom(fmt.Sprintf("%s[%d]", name, i), class, q)
+		}
+		return s
+	}
+	// vAssertEqMod(a, b []uint64, q, id): limb-wise polynomial identity
+	P["vAssertEqMod"] = func(x *Exec, fn *ssa.Function, a []Value) Value {
+		q := x.term(a[2]).C
+		as, bs := x.sliceFEs(a[0], q), x.sliceFEs(a[1], q)
+		if len(as) != len(bs) {
+			x.addObligation(&Obligation{ID: a[3].(string), Kind: "assert", Cond: x.ts.False, Where: "length mismatch"})
+			return nil
+		}
+		for i := range as {
+			x.feObligation(as[i].P, bs[i].P, a[3].(string), fmt.Sprintf("slot %d (mod %d)", i, q))
+		}
+		return nil
+	}
+	// vAssertNoiseFreeMod(a, b []uint64, q, id): equal after setting error/rounding atoms to zero
+	P["vAssertNoiseFreeMod"] = func(x *Exec, fn *ssa.Function, a []Value) Value {
+		q := x.term(a[2]).C
+		as, bs := x.sliceFEs(a[0], q), x.sliceFEs(a[1], q)
+		for i := range as {
+			x.feObligation(x.dropClasses(as[i].P, ClsError, ClsRounding), x.dropClasses(bs[i].P, ClsError, ClsRounding), a[3].(string), fmt.Sprintf("slot %d (mod %d), noise atoms removed", i, q))
+		}
+		return nil
+	}
+	// vAssertReduced(a []uint64, q, mult, id): tracked upper bound < mult*q
+	P["vAssertBelow"] = func(x *Exec, fn *ssa.Function, a []Value) Value {
+		q := x.term(a[1]).C
+		mult := x.term(a[2]).C
+		lim := new(big.Int).Mul(new(big.Int).SetUint64(q), new(big.Int).SetUint64(mult))
+		ok := true
+		for _, f := range x.sliceFEs(a[0], q) {
+			if f.Hi.Cmp(lim) >= 0 {
+				ok = false
+			}
+		}
+		x.addObligation(&Obligation{ID: a[3].(string), Kind: "assert", Cond: x.ts.Bool(ok), Where: "tracked range"})
+		return nil
+	}
+	// vHasClass(a []uint64, q, class) bool : some slot contains an atom of the class with a non-zero coefficient
+	P["vEverySlotHasClass"] = func(x *Exec, fn *ssa.Function, a []Value) Value {
+		q := x.term(a[1]).C
+		class := x.constInt(a[2], "class")
+		s := x.feS()
+		all := true
+		for _, f := range x.sliceFEs(a[0], q) {
+			found := false
+			for k := range f.P.terms {
+				for _, id := range monoIDs(k) {
+					if s.atoms[id].class == class {
+						found = true
+					}
+				}
+			}
+			if !found {
+				all = false
+			}
+		}
+		return x.ts.Bool(all)
+	}
+	// vNoAtomOfClass(a []uint64, q, class) bool
+	P["vNoAtomOfClass"] = func(x *Exec, fn *ssa.Function, a []Value) Value {
+		q := x.term(a[1]).C
+		class := x.constInt(a[2], "class")
+		s := x.feS()
+		for _, f := range x.sliceFEs(a[0], q) {
+			for k := range f.P.terms {
+				for _, id := range monoIDs(k) {
+					if s.atoms[id].class == class {
+						return x.ts.False
+					}
+				}
+			}
+		}
+		return x.ts.True
+	}
+	P["vIsAlgebraic"] = func(x *Exec, fn *ssa.Function, a []Value) Value { return x.ts.True }
+}
